@@ -81,6 +81,7 @@ theorem stateAt_of_residue (es : List Elem) (off t : Int) (h : Admissible es) :
   simp only [init_last]
   have hp : total es + off - off = total es := by omega
   simp only [hp, show ¬ total es = 0 by omega, if_false]
+  rw [Int.fmod_eq_emod_of_nonneg _ (by omega : (0 : Int) ≤ total es)]
   have hr0 : 0 ≤ (t - off) % total es := Int.emod_nonneg _ (by omega)
   have hr1 : (t - off) % total es < total es := Int.emod_lt_of_pos _ hT
   generalize (t - off) % total es = r at hr0 hr1
